@@ -376,14 +376,14 @@ class DefaultOperatorResolver(OperatorResolver):
         def multistage_formula(
             lhs: OrderedSet[Term], rhs: OrderedSet[Term]
         ) -> Structured[OrderedSet[Term]]:
-            def get_terms(terms: OrderedSet[Term]) -> list[Term]:
-                return [
+            def get_terms(terms: OrderedSet[Term]) -> OrderedSet[Term]:
+                return OrderedSet(
                     Term(
                         factors=[Factor(str(t) + "_hat", eval_method="lookup")],
                         origin=t,
                     )
                     for t in terms
-                ]
+                )
 
             if isinstance(lhs, Structured):
                 raise NotImplementedError(
